@@ -12,6 +12,7 @@ from rules.c14 import Tokenizer
 
 RULES = {
     "R-15.1": "a record type lower-cases the names in its RDATA iff it is listed in RFC 4034 6.2 as amended by RFC 6840 5.1 (dataflow of _to_wire's canonicalize parameter into every embedded Name.to_wire)",
+    "R-15.7": "canonical RRsets contain no duplicates and signing a zone twice leaves one NSEC per name: equal records hash equally (C07 R-07.3 adopted) and merges go through Rdataset.add, which keeps singleton types single (C07 R-07.7 adopted)",
     "R-15.6": "the zone signer marks 'no name yet' with None and tests it by identity everywhere: the empty name (the apex of a relativized zone) is falsy, so a truth-value test drops the apex from the NSEC chain",
     "R-15.5": "Name.to_wire(canonicalize=True) folds every label it emits, the origin's included: each raw label emission sits on the not-canonicalize side of a `canonicalize` test and every nested to_wire/to_digestable call passes canonicalize on",
     "R-15.2": "canonical forms are uncompressed: to_digestable reaches _to_wire with compress=None and no codec manufactures a compression table",
@@ -297,6 +298,7 @@ def run(model, rep, tier):
         rep.check(not carry and bool(in_loop), "R-15.4", bm.qualname, where(bm, carry[0] if carry else bm.node), f"the window length `{L}` is recomputed from the current type alone (types are sorted, so the last one of a window is its highest)",
                   f"`{src(carry[0])[:50]}` carries the window length over from earlier types: a later window inherits the length of a longer earlier one and the NSEC/NSEC3/CSYNC bitmap gets trailing zero octets "
                   "(forbidden by RFC 4034 4.1.2; the canonical form differs)" if carry else "the window length is not set per type", stmt="window-length")
+    rep.share(model, "C07", {"R-07.3", "R-07.7"}, "R-15.7", "_make_rrsig_signature_data and compute_digest iterate rdatasets (hash-deduplicated); sign_zone adds NSEC records with txn.add (union into the stored rdataset)")
     from rules.common import mixed_presence_tests
     mixed_presence_tests(model, rep, "R-15.6", {"dns.dnssec"}, "a name-or-None marker of the zone signer",
                          "the empty name, i.e. the apex of a relativized zone, is falsy: a zone with only the apex gets no NSEC at all", 3)
